@@ -20,6 +20,7 @@ package cbor
 //@   ensures result == nil ==> accepted(e.w) == old(accepted(e.w)) + 1 + nfOf(n)
 //@   ensures result == nil ==> content(e.w) == cat(old(content(e.w)), cborHead(byte(t), n))
 //@   ensures accepted(e.w) >= old(accepted(e.w)) && accepted(e.w) <= old(accepted(e.w)) + 1 + nfOf(n)
+//@   ensures[buffer-never-fails] typeis(e.w, *bytes.Buffer) ==> result == nil
 //@   ensures[skew] accepted(e.w) - wrapped(e.w) == old(accepted(e.w) - wrapped(e.w))
 //@   assigns accepted(e.w), failed(e.w), content(e.w), wrapped(e.w)
 //@   loop 0:
@@ -36,6 +37,7 @@ package cbor
 //@   ensures result == nil ==> content(e.w) == cat(old(content(e.w)), cborHead(0, n))
 //@   ensures result == nil ==> accepted(e.w) == old(accepted(e.w)) + 1 + nfOf(n)
 //@   ensures accepted(e.w) >= old(accepted(e.w)) && accepted(e.w) <= old(accepted(e.w)) + 1 + nfOf(n)
+//@   ensures[buffer-never-fails] typeis(e.w, *bytes.Buffer) ==> result == nil
 //@   ensures[skew] accepted(e.w) - wrapped(e.w) == old(accepted(e.w) - wrapped(e.w))
 //@   assigns accepted(e.w), failed(e.w), content(e.w), wrapped(e.w)
 
@@ -45,6 +47,7 @@ package cbor
 //@   ensures failed(e.w) == (result != nil)
 //@   ensures result == nil && n >= 0 ==> content(e.w) == cat(old(content(e.w)), cborHead(0, uint64(n)))
 //@   ensures result == nil && n < 0 ==> content(e.w) == cat(old(content(e.w)), cborHead(32, uint64(-1 - n)))
+//@   ensures[buffer-never-fails] typeis(e.w, *bytes.Buffer) ==> result == nil
 //@   ensures[skew] accepted(e.w) - wrapped(e.w) == old(accepted(e.w) - wrapped(e.w))
 //@   assigns accepted(e.w), failed(e.w), content(e.w), wrapped(e.w)
 
@@ -55,6 +58,7 @@ package cbor
 //@   ensures result == nil ==> content(e.w) == cat(old(content(e.w)), cborHead(128, uint64(n)))
 //@   ensures result == nil ==> accepted(e.w) == old(accepted(e.w)) + 1 + nfOf(uint64(n))
 //@   ensures accepted(e.w) >= old(accepted(e.w)) && accepted(e.w) <= old(accepted(e.w)) + 1 + nfOf(uint64(n))
+//@   ensures[buffer-never-fails] typeis(e.w, *bytes.Buffer) ==> result == nil
 //@   ensures[skew] accepted(e.w) - wrapped(e.w) == old(accepted(e.w) - wrapped(e.w))
 //@   assigns accepted(e.w), failed(e.w), content(e.w), wrapped(e.w)
 
@@ -65,6 +69,7 @@ package cbor
 //@   ensures result == nil ==> content(e.w) == cat(old(content(e.w)), cborHead(160, uint64(n)))
 //@   ensures result == nil ==> accepted(e.w) == old(accepted(e.w)) + 1 + nfOf(uint64(n))
 //@   ensures accepted(e.w) >= old(accepted(e.w)) && accepted(e.w) <= old(accepted(e.w)) + 1 + nfOf(uint64(n))
+//@   ensures[buffer-never-fails] typeis(e.w, *bytes.Buffer) ==> result == nil
 //@   ensures[skew] accepted(e.w) - wrapped(e.w) == old(accepted(e.w) - wrapped(e.w))
 //@   assigns accepted(e.w), failed(e.w), content(e.w), wrapped(e.w)
 
@@ -75,6 +80,7 @@ package cbor
 //@   ensures result == nil ==> content(e.w) == cat(cat(old(content(e.w)), cborHead(byte(t), uint64(len(bs)))), bytes(bs))
 //@   ensures result == nil ==> accepted(e.w) == old(accepted(e.w)) + 1 + nfOf(uint64(len(bs))) + len(bs)
 //@   ensures accepted(e.w) >= old(accepted(e.w)) && accepted(e.w) <= old(accepted(e.w)) + 1 + nfOf(uint64(len(bs))) + len(bs)
+//@   ensures[buffer-never-fails] typeis(e.w, *bytes.Buffer) ==> result == nil
 //@   ensures[skew] accepted(e.w) - wrapped(e.w) == old(accepted(e.w) - wrapped(e.w))
 //@   assigns accepted(e.w), failed(e.w), content(e.w), wrapped(e.w)
 
@@ -85,6 +91,7 @@ package cbor
 //@   ensures result == nil ==> content(e.w) == cat(cat(old(content(e.w)), cborHead(64, uint64(len(bs)))), bytes(bs))
 //@   ensures result == nil ==> accepted(e.w) == old(accepted(e.w)) + 1 + nfOf(uint64(len(bs))) + len(bs)
 //@   ensures accepted(e.w) >= old(accepted(e.w)) && accepted(e.w) <= old(accepted(e.w)) + 1 + nfOf(uint64(len(bs))) + len(bs)
+//@   ensures[buffer-never-fails] typeis(e.w, *bytes.Buffer) ==> result == nil
 //@   ensures[skew] accepted(e.w) - wrapped(e.w) == old(accepted(e.w) - wrapped(e.w))
 //@   assigns accepted(e.w), failed(e.w), content(e.w), wrapped(e.w)
 
@@ -97,6 +104,7 @@ package cbor
 //@   ensures result == nil ==> content(e.w) == cat(cat(old(content(e.w)), cborHead(96, uint64(len(s)))), bytes(s))
 //@   ensures result == nil ==> accepted(e.w) == old(accepted(e.w)) + 1 + nfOf(uint64(len(s))) + len(s)
 //@   ensures accepted(e.w) >= old(accepted(e.w)) && accepted(e.w) <= old(accepted(e.w)) + 1 + nfOf(uint64(len(s))) + len(s)
+//@   ensures[buffer-never-fails] typeis(e.w, *bytes.Buffer) && utf8valid(bytes(s)) ==> result == nil
 //@   ensures[skew] accepted(e.w) - wrapped(e.w) == old(accepted(e.w) - wrapped(e.w))
 //@   assigns accepted(e.w), failed(e.w), content(e.w), wrapped(e.w)
 
@@ -108,6 +116,7 @@ package cbor
 //@   ensures result == nil ==> content(e.w) == cat(old(content(e.w)), cborHead(224, b ? 21 : 20))
 //@   ensures result == nil ==> accepted(e.w) == old(accepted(e.w)) + 1
 //@   ensures accepted(e.w) >= old(accepted(e.w)) && accepted(e.w) <= old(accepted(e.w)) + 1
+//@   ensures[buffer-never-fails] typeis(e.w, *bytes.Buffer) ==> result == nil
 //@   ensures[skew] accepted(e.w) - wrapped(e.w) == old(accepted(e.w) - wrapped(e.w))
 //@   assigns accepted(e.w), failed(e.w), content(e.w), wrapped(e.w)
 
@@ -278,9 +287,10 @@ package cbor
 //@     invariant[entries-fresh] forall k int :: rangeindex < k && k < len(entries) ==> entryFresh(entries[k])
 //@     invariant[distinct] forall a int, b int :: {entries[a], entries[b]} 0 <= a && a < b && b < len(entries) ==> entries[a] != entries[b]
 //@     invariant[no-alias] forall k int :: 0 <= k && k < len(entries) ==> entries[k] != nil && ref(e.w) != ref(entries[k].keyBuf) && ref(e.w) != ref(entries[k].valueBuf) && ref(under(e.w)) != ref(entries[k].keyBuf) && ref(under(e.w)) != ref(entries[k].valueBuf)
-//@     invariant[sorted] forall a int, b int :: {entries[a], entries[b]} 0 <= a && a < b && b < len(entries) ==> bytesCompare(content(entries[b].keyBuf), content(entries[a].keyBuf)) >= 0
-//@     invariant[emitted-strictly-ascending] forall a int :: 0 <= a && a < rangeindex ==> bytesCompare(content(entries[a].keyBuf), content(entries[a + 1].keyBuf)) < 0
-//@     invariant[last-key] rangeindex >= 0 ==> lastKeyBytes != nil && bytes(lastKeyBytes) == content(entries[rangeindex].keyBuf)
+//@     invariant[keys-unchanged] forall k int :: 0 <= k && k < len(entries) ==> content(entries[k].keyBuf) == oldghost(content, entries[k].keyBuf)
+//@     invariant[sorted] forall a int, b int :: {entries[a], entries[b]} 0 <= a && a < b && b < len(entries) ==> bytesCompare(oldghost(content, entries[b].keyBuf), oldghost(content, entries[a].keyBuf)) >= 0
+//@     invariant[emitted-strictly-ascending] forall a int :: 0 <= a && a < rangeindex ==> bytesCompare(oldghost(content, entries[a].keyBuf), oldghost(content, entries[a + 1].keyBuf)) < 0
+//@     invariant[last-key] rangeindex >= 0 ==> lastKeyBytes != nil && bytes(lastKeyBytes) == oldghost(content, entries[rangeindex].keyBuf)
 //@     invariant rangeindex < 0 ==> lastKeyBytes == nil
 //@     invariant accepted(e.w) - wrapped(e.w) == old(accepted(e.w) - wrapped(e.w)) && accepted(e.w) >= old(accepted(e.w))
 
